@@ -97,6 +97,18 @@ let objective o kk : Objectives.objective =
   | 3 -> Objectives.MaxKSmallest (nat_of_int kk) | 4 -> Objectives.MinKLargest (nat_of_int kk)
   | _ -> raise (Parse "objective")
 
+let op_of (x : v) : (coq_Z * coq_Z) BinnerHeap.op =
+  match list_ x with
+  | [I 0; keep; n] -> BinnerHeap.OpNew (bool_ keep, nat_ n)
+  | [I 1; h; nm; vl; i] -> BinnerHeap.OpAdd (nat_ h, (z_ nm, z_ vl), nat_ i)
+  | [I 2; h] -> BinnerHeap.OpCopy (nat_ h)
+  | [I 3; h] -> BinnerHeap.OpSort (nat_ h)
+  | [I 4; h; n] -> BinnerHeap.OpAddEmpty (nat_ h, nat_ n)
+  | [I 5; h; n] -> BinnerHeap.OpRemove (nat_ h, nat_ n)
+  | [I 6; h1; h2] -> BinnerHeap.OpConcat (nat_ h1, nat_ h2)
+  | [I 7; h1; i1; h2; i2] -> BinnerHeap.OpCombine (nat_ h1, nat_ i1, nat_ h2, nat_ i2)
+  | _ -> raise (Parse "op expected")
+
 let run (cmd : string) (a : v list) : string =
   match cmd, a with
   | "greedy", [keep; k; ns; vs] -> pbins (Greedy.greedy vof (bool_ keep) (nat_ k) (items ns vs))
@@ -160,6 +172,20 @@ let run (cmd : string) (a : v list) : string =
   | "chk_anyfit", [c; b] -> pbool (Checkers.anyfit_b (z_ c) (bins_in b))
   | "chk_ascending", [s] -> pbool (Checkers.ascending_b (zlist s))
   | "chk_wf", [b] -> pbool (Checkers.wf_b (bins_in b))
+  (* ---- bins-manager operation sequences (C16) ---- *)
+  | "heap_run", [ops] ->
+      let ops = Stdlib.List.map op_of (list_ ops) in
+      let st = ref BinnerHeap.empty_state in
+      let obs = Stdlib.List.map (fun o -> st := BinnerHeap.step vof !st o; plist pbins (BinnerHeap.observe !st)) ops in
+      "[" ^ Stdlib.String.concat "," obs ^ "]"
+  | "pure_run", [ops] ->
+      let ops = Stdlib.List.map op_of (list_ ops) in
+      let st = ref [] in
+      let obs = Stdlib.List.map (fun o ->
+          let ok = AbsBins.disciplined_b !st o in
+          st := AbsBins.pure_step vof !st o;
+          "[" ^ pbool ok ^ "," ^ plist (fun e -> match e with None -> "null" | Some (_, b) -> pbins b) !st ^ "]") ops in
+      "[" ^ Stdlib.String.concat "," obs ^ "]"
   | _ -> raise (Parse ("unknown command " ^ cmd))
 
 let () =
